@@ -69,10 +69,19 @@ def structure_follows(el, ref, path, bad):
 def pmsg(job):
     """(text, strict, find_groups, spec) -> parse_message(text, message_profile=p).to_er7() + tree # validate() against the profile"""
     from hl7apy.parser import parse_message
-    t, strict, fg, spec = job
+    t, strict, fg, spec = job[:4]
+    route = job[4] if len(job) > 4 else 'parse'
     try:
         p = build_profile(spec)
-        m = parse_message(t, validation_level=vlib.level(strict), find_groups=fg, message_profile=p)
+        if route == 'value':
+            # the other way of giving a profiled message its content: Message(structure, reference=profile).value = text (seed C18-h)
+            from hl7apy.core import Message
+            from hl7apy.parser import get_message_info
+            ec, _, ver = get_message_info(t)
+            m = Message(spec[1], reference=p, version=ver, validation_level=vlib.level(strict), encoding_chars=ec)
+            m.value = t
+        else:
+            m = parse_message(t, validation_level=vlib.level(strict), find_groups=fg, message_profile=p)
     except Exception as e:  # noqa
         return 'exc ' + vlib.exc_name(e)
     tr = impl.tree(m.children)
@@ -437,6 +446,16 @@ def run(tier, seed):
             chk.fail(None, {'clause': 'a profile restating the standard structure changes nothing', 'with_profile': r[:300], 'without': str(base.get((j[0], j[1])))[:300], **mt}, rep)
         elif mt['kind'] == 'edit' and r.startswith('ok '):
             chk.nontrivial.add((mt['version'], mt['structure'], json.dumps(mt['edit']), r.split(' # ')[-1]))
+    # oracle: Message(structure, reference=profile).value = text gives what parse_message(text, message_profile=profile) gives
+    vjobs = [(j, mt, r) for j, mt, r in zip(jobs, meta, res0) if mt['kind'] == 'edit' and j[2] and r.startswith('ok ')]
+    vjobs = rng.sample(vjobs, min(len(vjobs), 60 if tier == 'quick' else 2000))
+    for (j, mt, r), r2 in zip(vjobs, vlib.pmap(pmsg, [tuple(j) + ('value',) for j, _, _ in vjobs], chunk=8)):
+        chk.evals += 1
+        if r2 != r:
+            chk.fail(None, {'clause': 'Message(structure, reference=profile).value = text follows the profile like parse_message(text, message_profile=profile)',
+                            'by_value_assignment': r2[-400:], 'by_parse_message': r[-400:], **mt},
+                     {'text': j[0], 'strict': j[1], 'find_groups': j[2], 'spec': list(j[3]), 'route': 'value'})
+    chk.dist['value_assignment_route'] = len(vjobs)
     # oracle: creation paths under Message(structure, reference=profile)
     cres = vlib.pmap(creation, cjobs, chunk=8)
     for cj, bad in zip(cjobs, cres):
